@@ -84,6 +84,7 @@ type oev struct {
 	Od      bool   `json:"od,omitempty"`
 	P       *plan  `json:"p,omitempty"`
 	Snap    []rec  `json:"snap,omitempty"`
+	Pre     []rec  `json:"pre,omitempty"`
 	Res     []kc   `json:"res,omitempty"`
 	K       int    `json:"k,omitempty"`
 }
@@ -218,7 +219,27 @@ func shiftResult(rs []lib.Rec, err error) result {
 	return out
 }
 
+// dump reads the swamp; a read that does not return within 3 s (the swamp is deadlocked) yields
+// nil and marks the swamp as stuck, so that the case is reported as a hang instead of stalling
+// the whole run.
+var stuck sync.Map
+
 func dump(e *lib.Env, sw string) []rec {
+	if _, bad := stuck.Load(sw); bad {
+		return nil
+	}
+	ch := make(chan []rec, 1)
+	go func() { ch <- dumpRaw(e, sw) }()
+	select {
+	case r := <-ch:
+		return r
+	case <-time.After(3 * time.Second):
+		stuck.Store(sw, true)
+		return nil
+	}
+}
+
+func dumpRaw(e *lib.Env, sw string) []rec {
 	out := []rec{}
 	for _, r := range e.Dump(sw) {
 		out = append(out, rec{K: keyNum(r.Key), St: stNum(r.Status), Grp: int(r.Grp), E: eOf(r.Exp)})
@@ -310,7 +331,11 @@ func cEv(o oev) string {
 		if o.P != nil {
 			pl = cOptPlan(*o.P)
 		}
-		return common.App("OClaim", common.Nat(o.T), common.Bool(o.Inplace), common.Nat(o.Hm), common.Bool(o.Od), pl, common.List(sn))
+		pr := []string{}
+		for _, r := range o.Pre {
+			pr = append(pr, cRec(r))
+		}
+		return common.App("OClaim", common.Nat(o.T), common.Bool(o.Inplace), common.Nat(o.Hm), common.Bool(o.Od), pl, common.List(sn), common.List(pr))
 	case "Patched":
 		return common.App("OPatched", common.Nat(o.T), cKcs(o.Res))
 	case "Reidx":
@@ -380,6 +405,24 @@ type stepRec struct {
 }
 
 func runForced(e *lib.Env, rs []rec, ps []prog, sched []mstep, kind string) obs {
+	return runDriven(e, rs, ps, kind, func(d *driver) {
+		for _, m := range sched {
+			d.exec(m)
+		}
+	})
+}
+
+// driver: what a schedule driver can do on the running case
+type driver struct {
+	ctl    *lib.Ctl
+	exec   func(m mstep)            // execute a macro step and record it
+	record func(m mstep, pre []rec) // record a macro step executed by hand
+	dump   func() []rec
+	ps     []prog
+	note   func(string)
+}
+
+func runDriven(e *lib.Env, rs []rec, ps []prog, kind string, drive func(d *driver)) obs {
 	sw := e.FreshSwamp(false)
 	seed(e, sw, rs)
 	o := obs{Recs: rs, Progs: ps, Replay: true, Kind: kind, Res: make([][]kc, len(ps))}
@@ -399,7 +442,7 @@ func runForced(e *lib.Env, rs []rec, ps []prog, sched []mstep, kind string) obs 
 	finished := map[int]bool{}
 	steps := []stepRec{}
 	exec := func(m mstep) {
-		if finished[m.T] {
+		if finished[m.T] || len(o.Notes) > 0 { // after a hang nothing more can be learnt from the case
 			return
 		}
 		pre := dump(e, sw)
@@ -419,16 +462,29 @@ func runForced(e *lib.Env, rs []rec, ps []prog, sched []mstep, kind string) obs 
 			steps = append(steps, stepRec{m, pre})
 		}
 	}
-	for _, m := range sched {
-		exec(m)
-	}
+	drive(&driver{ctl: ctl, exec: exec, ps: ps, dump: func() []rec { return dump(e, sw) },
+		record: func(m mstep, pre []rec) {
+			if m.Kind == "Finish" {
+				finished[m.T] = true
+			}
+			steps = append(steps, stepRec{m, pre})
+		},
+		note: func(n string) { o.Notes = append(o.Notes, n) }})
 	for t := range ps {
 		exec(mstep{"Finish", t})
 	}
-	if !ctl.Drain(len(ps), 5*time.Second) {
+	drainT := 5 * time.Second
+	if len(o.Notes) > 0 {
+		drainT = 300 * time.Millisecond
+	}
+	if !ctl.Drain(len(ps), drainT) {
 		o.Notes = append(o.Notes, "hang: a thread did not finish")
 	}
 	o.Final = dump(e, sw)
+	if _, bad := stuck.Load(sw); bad {
+		o.Notes = append(o.Notes, "hang: the swamp no longer answers reads (deadlock)")
+		o.Replay = false
+	}
 	mu.Lock()
 	defer mu.Unlock()
 	selected := map[int]bool{}
@@ -454,6 +510,10 @@ func runForced(e *lib.Env, rs []rec, ps []prog, sched []mstep, kind string) obs 
 					}
 				} else {
 					ev.Snap = results[t].clones
+					for _, x := range ev.Snap {
+						r, _ := find(st.pre, x.K)
+						ev.Pre = append(ev.Pre, r)
+					}
 				}
 				o.Events = append(o.Events, ev)
 			}
@@ -488,6 +548,70 @@ func runForced(e *lib.Env, rs []rec, ps []prog, sched []mstep, kind string) obs 
 		}
 	}
 	return o
+}
+
+// firstMatch: the first record of the index walk (ascending expiry) the claimer's criteria accept
+func firstMatch(rs []rec, p prog) (int, bool) {
+	best, found := rec{}, false
+	for _, r := range rs {
+		if r.E == 0 || (p.Od && r.E > 0) {
+			continue
+		}
+		ok := true
+		switch p.P.Kind {
+		case "eq":
+			ok = r.St == p.P.A
+		case "eqge":
+			ok = r.St == p.P.A && r.Grp >= p.P.B
+		case "ne":
+			ok = r.St != p.P.A
+		case "ge":
+			ok = r.Grp >= p.P.B
+		}
+		if ok && (!found || r.E < best.E) {
+			best, found = r, true
+		}
+	}
+	return best.K, found
+}
+
+// runMid parks a ShiftMatching claimer INSIDE its selection step (the predicate has just accepted
+// the first record; the engine holds the index lock and that record's guard) and releases a
+// writer on that very record: the write must wait until the selection is over, so the claimer's
+// copy is the record as selected. Thread 0 = claimer, 1 = writer, the rest run afterwards.
+func runMid(e *lib.Env, rs []rec, ps []prog, kind string) obs {
+	return runDriven(e, rs, ps, kind, func(d *driver) {
+		pre0 := d.dump()
+		if got := d.ctl.Advance(0, stepTimeout, "gateway.shiftMatching.predicateTrue"); got != "gateway.shiftMatching.predicateTrue" {
+			if got == "done" {
+				d.record(mstep{"Finish", 0}, pre0)
+			}
+			return
+		}
+		w := d.ctl.Advance(1, 200*time.Millisecond)
+		if w == "blocked" {
+			w = d.ctl.Wait(1, 500*time.Millisecond) // confirm (loaded machine)
+		}
+		sel := d.ctl.Advance(0, stepTimeout, "swamp.shiftMatching.selected")
+		selKind := "Selected"
+		if sel == "done" {
+			selKind = "Finish"
+		}
+		if w == "blocked" {
+			// the writer ran after the selection
+			d.record(mstep{selKind, 0}, pre0)
+			pre1 := d.dump()
+			if d.ctl.Wait(1, stepTimeout) != "done" {
+				d.note("the writer released during a selection step never finished")
+				return
+			}
+			d.record(mstep{"Finish", 1}, pre1)
+		} else {
+			// the writer got through while the selection was in progress
+			d.record(mstep{"Finish", 1}, pre0)
+			d.record(mstep{selKind, 0}, d.dump())
+		}
+	})
 }
 
 func runSeq(e *lib.Env, rs []rec, ps []prog, kind string) obs {
@@ -827,6 +951,89 @@ func main() {
 		run.Violate(idx, "no record to two claimers", "same_key_to_claimers_on_different_indexes", detail)
 	}
 	run.Hist("kind:cross-index-witness")
+
+	// 1b. writes released inside a selection step (all four writer kinds on the record the
+	// predicate has just accepted), then a second claimer
+	nmid := 40
+	if thorough {
+		nmid = 400
+	}
+	for i := 0; i < nmid; i++ {
+		n := 3 + rng.Intn(3)
+		rs := genRecs(rng, n)
+		c := prog{Kind: "SM", Hm: 1 + rng.Intn(3), Od: rng.Chance(60), P: genPlan(rng, false)}
+		if c.P.Kind == "true" {
+			c.P = plan{Kind: "ge", B: 0}
+		}
+		k, ok := firstMatch(rs, c)
+		if !ok {
+			continue
+		}
+		var w prog
+		switch rng.Intn(5) {
+		case 0, 1:
+			w = prog{Kind: "WPatch", K: k, St: (c.P.A + 1 + rng.Intn(2)) % 3}
+		case 2:
+			w = prog{Kind: "WPut", K: k, St: rng.Intn(3), Grp: rng.Intn(4), E: freshE(rng, rng.Chance(50))}
+		case 3:
+			w = prog{Kind: "WExp", K: k, E: []int64{0, freshE(rng, false)}[rng.Intn(2)]}
+		default:
+			w = prog{Kind: "WDel", K: k}
+		}
+		ps := []prog{c, w}
+		if rng.Chance(50) {
+			ps = append(ps, genClaimer(rng))
+		}
+		add(runMid(e, rs, ps, "forced-mid"))
+	}
+
+	// 1c. key reuse during an in-place claim: PatchExpired has selected k; k is deleted and stored
+	// again (a new record under the same key) before the claim finishes; later claimers must see
+	// only the new record
+	nre := 36
+	if thorough {
+		nre = 300
+	}
+	for i := 0; i < nre; i++ {
+		n := 2 + rng.Intn(3)
+		rs := genRecs(rng, n)
+		pe := prog{Kind: "PE", Hm: 1 + rng.Intn(2), P: plan{Kind: "none"}, Nst: 2}
+		switch rng.Intn(3) {
+		case 0:
+			f := freshE(rng, false)
+			pe.Nexp = &f
+		case 1:
+			z := int64(0)
+			pe.Nexp = &z
+		}
+		k, ok := firstMatch(rs, prog{Od: true, P: plan{Kind: "none"}})
+		if !ok {
+			continue
+		}
+		ne := int64(0)
+		if rng.Chance(60) {
+			ne = freshE(rng, rng.Chance(50))
+		}
+		ps := []prog{pe, {Kind: "WDel", K: k}, {Kind: "WPut", K: k, St: rng.Intn(2), Grp: 5 + rng.Intn(3), E: ne}, genClaimer(rng), {Kind: "SE", Hm: 5, Od: true, P: plan{Kind: "none"}}}
+		park := []string{"Selected", "Patched", "Built"}[rng.Intn(3)]
+		sched := []mstep{{park, 0}, {"Finish", 1}, {"Finish", 2}}
+		if rng.Chance(30) {
+			sched = append(sched, mstep{"Patched", 0})
+		}
+		sched = append(sched, mstep{"Finish", 0}, mstep{"Finish", 3}, mstep{"Finish", 4})
+		add(runForced(e, rs, ps, sched, "forced-recreate"))
+	}
+	// the same with a shift claimer parked between its selection and its deleteHandler calls
+	for i := 0; i < nre/3; i++ {
+		rs := genRecs(rng, 2+rng.Intn(3))
+		c := prog{Kind: []string{"SE", "SM"}[rng.Intn(2)], Hm: 1 + rng.Intn(2), Od: true, P: plan{Kind: "none"}}
+		k, ok := firstMatch(rs, prog{Od: true, P: plan{Kind: "none"}})
+		if !ok {
+			continue
+		}
+		ps := []prog{c, {Kind: "WDel", K: k}, {Kind: "WPut", K: k, St: rng.Intn(2), Grp: 6, E: freshE(rng, rng.Chance(50))}, genClaimer(rng)}
+		add(runForced(e, rs, ps, []mstep{{"Selected", 0}, {"Finish", 1}, {"Finish", 2}, {"Finish", 0}, {"Finish", 3}}, "forced-recreate-shift"))
+	}
 
 	// 2. sequential histories
 	nseq := 220
